@@ -111,6 +111,11 @@ type Gen struct {
 	curInstr  ssa.Instruction
 	autoInvs  map[int][]Clause
 	variantAtHead map[*ssa.BasicBlock]string
+	entryByteMem string
+	heapKind     map[string]Kind
+	ownLocsDone  bool
+	ownLocsCache []modLoc
+	inFrameEval  bool
 }
 
 type Hooks struct {
@@ -161,6 +166,9 @@ func (g *Gen) oblige(kind, text string, pos token.Pos, guard, goal string) *Obl 
 	}
 	base := g.fnName() + "#" + kind
 	if text != "" {
+		if r := []rune(text); len(r) > 96 {
+			text = string(r[:96]) + "…"
+		}
 		base += ":" + text
 	}
 	g.oblNames[base]++
@@ -268,6 +276,9 @@ func (g *Gen) heapSym(h *Heap, name string) string {
 		g.emit("(assert " + e + ")")
 	}
 	g.baseSyms[key] = s
+	if len(h.base.parents) == 0 {
+		g.rangeAxiom(h, name, s)
+	}
 	return s
 }
 
@@ -280,6 +291,37 @@ func splitFunSig(sig string) (args []string, ret string) {
 	}
 	ret = strings.TrimSpace(sig[i+1:])
 	return
+}
+
+// noteKind records that heap array `name` holds addresses (KPtr) ; "#arr" components hold array ids.
+func (g *Gen) noteKind(name string, k Kind) {
+	if k == KPtr {
+		g.heapKind[name] = KPtr
+	}
+}
+
+// rangeAxiom: every value stored in a heap array of addresses / array ids is an allocated one
+// (below the allocation counters of heap h).  Emitted when an unconstrained version is introduced.
+func (g *Gen) rangeAxiom(h *Heap, name, s string) {
+	srt := g.heapSort[name]
+	var bound string
+	switch {
+	case strings.HasSuffix(name, "#arr"):
+		if name == "abrk" {
+			return
+		}
+		bound = g.abrk(&State{heap: h})
+	case g.heapKind[name] == KPtr:
+		bound = g.brk(&State{heap: h})
+	default:
+		return
+	}
+	switch srt {
+	case "(Array Int Int)":
+		g.emit(fmt.Sprintf("(assert (forall ((p Int)) (! (< (select %s p) %s) :pattern ((select %s p)))))", s, bound, s))
+	case "(Array Int (Array Int Int))":
+		g.emit(fmt.Sprintf("(assert (forall ((a Int) (i Int)) (! (< (select (select %s a) i) %s) :pattern ((select (select %s a) i)))))", s, bound, s))
+	}
 }
 
 func (g *Gen) setHeapSort(name, srt string) {
@@ -335,6 +377,7 @@ func (g *Gen) loadAt(st *State, prefix string, t types.Type, addr string) *Val {
 	for i, s := range sfx {
 		name := prefix + s
 		g.setHeapSort(name, "(Array Int "+sortOfKind(kinds[i])+")")
+		g.noteKind(name, kinds[i])
 		leaves[i] = sel(g.heapSym(st.heap, name), addr)
 	}
 	v := g.valFromLeaves(t, leaves)
@@ -363,6 +406,7 @@ func (g *Gen) loadElem(st *State, elemT types.Type, arr, idx string) *Val {
 	for i, s := range sfx {
 		name := prefix + s
 		g.setHeapSort(name, "(Array Int (Array Int "+sortOfKind(kinds[i])+"))")
+		g.noteKind(name, kinds[i])
 		leaves[i] = sel(sel(g.heapSym(st.heap, name), arr), idx)
 	}
 	return g.valFromLeaves(elemT, leaves)
@@ -875,11 +919,12 @@ func (g *Gen) strConst(s string) *Val {
 	arr := smtInt(-int64(1000000 + id))
 	if _, ok := g.strConsts[s]; !ok {
 		g.strConsts[s] = arr
-		// contents are rigid: provide them through the rigid function strc(arr, i)
+		// string constants live in byte memory at negative array ids; no store can reach them (slices have
+		// arr >= 0) and every havoc of byte memory preserves negative ids (applyModSet).
 		if len(s) <= 64 {
 			var cs []string
 			for i := 0; i < len(s); i++ {
-				cs = append(cs, eq(fmt.Sprintf("(strc %s %d)", arr, i), fmt.Sprintf("%d", s[i])))
+				cs = append(cs, eq(sel(sel(g.entryByteMem, arr), fmt.Sprintf("%d", i)), fmt.Sprintf("%d", s[i])))
 			}
 			g.emit("(assert " + and(cs...) + ")")
 		}
@@ -891,15 +936,6 @@ func (g *Gen) strConst(s string) *Val {
 // String constants (negative ids <= -1000000) read from the rigid function strc.
 func (g *Gen) byteAt(st *State, elemT types.Type, arr, idx string) string {
 	m := g.memSym(st, elemT, "", kindOf(elemT))
-	if kindOf(elemT) == KInt && intBits(elemT) == 8 {
-		if strings.HasPrefix(arr, "(- 1") && isConstTerm(arr) {
-			return "(strc " + arr + " " + idx + ")"
-		}
-		if isConstTerm(arr) {
-			return sel(sel(m, arr), idx)
-		}
-		return ite("(<= "+arr+" (- 1000000))", "(strc "+arr+" "+idx+")", sel(sel(m, arr), idx))
-	}
 	return sel(sel(m, arr), idx)
 }
 
